@@ -18,6 +18,39 @@ theorem gen_windowMult (p : WIn) : Gen.windowMult p = windowMult p := by
          by_cases h1 : p.ts = 0 <;> by_cases h2 : p.ipVer = 6 <;> by_cases h3 : p.synMss = 0 <;>
            simp [h1, h2, h3, WILDCARD] <;> rfl
        · simp; omega)
+  | (-- the search written as a general loop (`continue`, `divmod`): shown equal to the first-hit search first
+     have hl : ∀ (dv l : List (Int × Bool)), Gen.windowMult_loop0 p dv l
+         = firstHit l (fun x => (x.1 != 0 && !(Int.fmod ((p.win : Nat) : Int) x.1 != 0)))
+             (fun x => (Int.fdiv ((p.win : Nat) : Int) x.1, x.2)) ((-1 : Int), false) := by
+       intro dv l
+       induction l with
+       | nil => unfold Gen.windowMult_loop0 firstHit; rfl
+       | cons a t ih =>
+         unfold Gen.windowMult_loop0
+         simp only [ih]
+         unfold firstHit
+         simp only [List.find?_cons]
+         by_cases h1 : a.1 = 0
+         · simp [h1]
+         · have e1 : (a.1 != 0) = true := by simpa using h1
+           by_cases h2 : Int.fmod ((p.win : Nat) : Int) a.1 = 0
+           · have e2 : (Int.fmod ((p.win : Nat) : Int) a.1 != 0) = false := by simpa using h2
+             simp [e1, e2, h2]
+           · have e2 : (Int.fmod ((p.win : Nat) : Int) a.1 != 0) = true := by simpa using h2
+             have e3 : (Int.fmod ((p.win : Nat) : Int) a.1 == 0) = false := by simpa using h2
+             simp [e1, e2, e3]
+     unfold Gen.windowMult windowMult
+     by_cases h : p.win = 0 ∨ p.mss < 100
+     · rw [if_pos h, if_pos]
+       · rfl
+       · rcases h with h | h <;> simp [h] <;> omega
+     · rw [if_neg h, if_neg]
+       · simp only [hl]
+         rw [firstHit_divides]
+         unfold divisors MIN_TCP4 MIN_TCP6
+         by_cases h1 : p.ts = 0 <;> by_cases h2 : p.ipVer = 6 <;> by_cases h3 : p.synMss = 0 <;>
+           simp [h1, h2, h3, WILDCARD] <;> rfl
+       · simp; omega)
 
 /-- **C17 against the source text**: the printed `calculate_window_multiplier` returns `window / d` with the MTU flag of the FIRST
     documented divisor that divides the window, and WILDCARD when there is no base or no divisor -/
